@@ -68,6 +68,31 @@ fn run_history(p: &Pool, policy: Policy, hist: &[(usize, usize)], expected: &[Ve
     Ok((calls, failed))
 }
 
+/// A designed template whose render fails midway at a point chosen by the data (`fail`): inside
+/// a capture after its body already wrote text, inside a loop after stateful tags ran, inside a
+/// tablerow while a break is pending, inside an included partial; `fail = none` succeeds. The
+/// generated templates ignore `fail`; the generated data objects get one each.
+fn add_failure_injection(p: &mut Pool, r: &mut crate::rng::Rng) {
+    let designed = concat!(
+        "{% capture cap %}head-{{ tagv }}{% if fail == 'capture' %}{{ nope }}{% endif %}-tail{% endcapture %}[{{ cap }}]",
+        "{% for i in (1..3) %}{% cycle 'z': 1, 2, 3 %}{% increment cnt %}{% ifchanged %}{{ i }}{% endifchanged %}",
+        "{% if i == 2 and fail == 'loop' %}{{ nope }}{% endif %}{% if i == 3 %}{% break %}{% endif %}{% endfor %}",
+        "{% for i in (1..2) %}{% tablerow j in (1..2) %}{% if j == 2 and fail == 'after-break' %}{{ nope }}{% endif %}",
+        "{% if j == 1 and fail == 'after-break' %}{% break %}{% endif %}c{% endtablerow %}{% endfor %}",
+        "{% assign keep = tagv %}{% include 'pf' %}{% render 'pf', fail: fail, tagv: tagv %}|{{ keep }}|{% cycle 'z': 1, 2, 3 %}{% increment cnt %}"
+    );
+    p.partials.push(("pf".into(), "<{{ tagv }}{% capture pc %}in{% if fail == 'partial' %}{{ nope }}{% endif %}{% endcapture %}{{ pc }}{% increment cnt %}>".into()));
+    p.mains.push(designed.to_string());
+    let modes = ["none", "capture", "loop", "after-break", "partial"];
+    for (k, d) in p.datas.iter_mut().enumerate() {
+        if let crate::val::RVal::Object(kv) = d {
+            let mode = if k == 1 { "none" } else { r.choose(&modes) };
+            kv.push(("fail".into(), crate::val::RVal::Str(mode.into())));
+            kv.push(("tagv".into(), crate::val::RVal::Str(format!("T{k}"))));
+        }
+    }
+}
+
 pub fn run(ctx: &mut Ctx) {
     ctx.start_watchdog(120);
     let n_pools = ctx.scale(48u64, 2000u64);
@@ -87,7 +112,8 @@ pub fn run(ctx: &mut Ctx) {
         };
         let n_main = 2 + r.below(2);
         let n_data = 2 + r.below(2);
-        let p = pool(&mut r, n_main, n_data, 2, i % 3 == 0, &opts);
+        let mut p = pool(&mut r, n_main, n_data, 2, i % 3 == 0, &opts);
+        add_failure_injection(&mut p, &mut r);
         let ph = hash_str(&pool_json(&p).to_string());
         ctx.set_progress(&pool_json(&p).to_string());
         for policy in [Policy::Eager, Policy::Lazy] {
